@@ -18,6 +18,7 @@ CLAIMS = {
  "C08": ("§7 C08", "cache protocol as a transition system with the invariant Inv proved preserved by every event incl. kill/fail and concurrent edits outside the parse-stat window (inv_next, cache_safe, hit_sound, never_accepted_after_edit, unchanged_is_served) and a negative witness for the pre-fix step order; tie: histories of runs / kills at 10 fault points / edits / binary swaps against the real binary, each event compared with the model, final run vs cold run oracle; partial: fsync/power loss, parse-stat window (known finding)."),
  "C09": ("§7 C09", "order-insensitivity theorems (merge_get, merge_perm, foldl_insertKeyed_perm) + translator obligation that every unordered container in /repo/src is in the reviewed table (decide +kernel) + repeated runs under 6 thread counts in fresh processes; partial: schedules and hash seeds are sampled."),
  "C10": ("§7 C10", "selection/partition theorems + metamorphic runs (subsets, every count:k/N partition, local mode from every directory) on the implementation."),
+ "C15": ("§7 C15", "totality theorems on the model: configureBuild_no_panic, generate_no_panic, load_no_panic, load_no_hang_strong (the two remaining modelled failure points are unreachable), parent_cycle_rejected, empty_name_rejected + translator obligation that every unwrap/expect/panic!/index site in /repo/src is in the reviewed table (decide +kernel) + structural mutation fuzzing of projects and command lines through the real CLI; partial: serde_yaml/clap/host stack not modelled, YAML-level mutations are fuzzing."),
  "C16": ("§7 C16", "runnable_iff, runs_only_selected_runnable, refuses_several, build_first, keep_going (exact prefix characterisation), exit_code over the MainRun model for all build lists; tie: real CLI with stand-in ninja and sh that log cwd/exports/argv, compared with the model's spawn list + exit status; oracle from the dumped task availability; partial: process spawning/signals not modelled."),
  "C17": ("§7 C17", "loader model: process_removes law, defaults-as-prefix per field (Prefixed, defaults_vs_plain), context_list, duplicate/unknown rejection, work-list duplicate-freeness, var_options nearest-ancestor inheritance; two counterexamples recorded as known findings; tie: loader+generator model vs CLI on trees with subdirs/multi-doc/defaults/context lists + metamorphic inlining on the implementation."),
  "C18": ("§7 C18", "targets_within_selection, targets_exact_of_selector, targets_cover, passes_flags, no_ninja_with_G, rc_nonzero_iff, clean_argv over the MainRun model; tie: scenarios of wide-then-narrow runs (cache hits) with a stand-in ninja logging argv and scripted exit codes; partial: spawning itself not modelled."),
